@@ -393,8 +393,8 @@ func bounds(quick bool) []bnd {
 	if quick {
 		return []bnd{{4, 2, len(leaves)}}
 	}
-	// full alphabet to 5 ops, and 6 ops over the x-only alphabet
-	return []bnd{{5, 2, len(leaves)}, {6, 2, 6}}
+	// full alphabet to 4 ops, 5 ops over the eight x-leaves, 6 ops over the four simplest leaves
+	return []bnd{{4, 2, len(leaves)}, {5, 2, 8}, {6, 2, 4}}
 }
 
 func run(c *vlib.Ctx) {
@@ -440,7 +440,7 @@ func replay(c *vlib.Ctx, w string) {
 func init() {
 	vlib.Register(&vlib.Check{
 		ID: "C11", Engine: "E3",
-		Rule: "every op tree (program) with at most N nodes and nesting depth <= 2 over leaves {x=1, x=2, y=1 (local assignment), !set x|y, read $x|$y, $GLOBAL.x=3|4, $GLOBAL.y=3, read $GLOBAL.x, !global x} and containers {call of a function defined for that site, if{true}then{..}, %[1]->foreach{..}, out ${..}} (quick N=4; thorough N=5, plus N=6 over the six simplest x-only leaves) is rendered as a murex program with strict-vars on, run in a fresh function scope with the global table reset, followed by top-level reads of x, y, GLOBAL.x, GLOBAL.y; every tagged read line on stdout (absent = undefined-variable failure) is compared with a scope-stack model: a call pushes an empty frame, blocks and sub-shells share the frame, one global table, lookup local then global, unset removes only the current frame's binding; non-trivial = the program has a container with a write (set/unset/global set/global unset) inside it",
+		Rule:   "every op tree (program) with at most N nodes and nesting depth <= 2 over leaves {x=1, x=2, y=1 (local assignment), !set x|y, read $x|$y, $GLOBAL.x=3|4, $GLOBAL.y=3, read $GLOBAL.x, !global x} and containers {call of a function defined for that site, if{true}then{..}, %[1]->foreach{..}, out ${..}} (quick N<=4; thorough N<=4, plus N=5 over the eight x-only leaves and N=6 over the four simplest leaves rx, x=1, gx=3, ux) is rendered as a murex program with strict-vars on, run in a fresh function scope with the global table reset, followed by top-level reads of x, y, GLOBAL.x, GLOBAL.y; every tagged read line on stdout (absent = undefined-variable failure) is compared with a scope-stack model: a call pushes an empty frame, blocks and sub-shells share the frame, one global table, lookup local then global, unset removes only the current frame's binding; non-trivial = the program has a container with a write (set/unset/global set/global unset) inside it",
 		Run:    run,
 		Replay: replay,
 		Assumptions: []string{
